@@ -206,6 +206,9 @@ def check(ctx):
     for text in ["", " ", ";", ";;", "1;", ";1", "%", "(", ")", "1 +", "x =", "=", "1e", "1e-", "0x", "0b2", "#", "\"", "{", "[1,", "f(", "f(1,", "1..", "..1",
                  "1 to", "to m", "1 m to", "1 m |", "1 m^", "1 m^x", "1 m^1.5", "instant", "1.5e400", "2^20000", "10^5000/3", "1/(10^400) + 0.5",
                  "sample(Geometric(1))", "max(5)", "max()", "range(1,2,0)", "1" + "0" * 400 + ".0", "1" + "0" * 400 + ".5 + 1", "1" + "0" * 308 + ".0", "9" * 309 + ".9", "1" + "0" * 400 + ".5e-200", "0." + "0" * 400 + "1",
+                 "#9999-366#", "#9999-999#", "#0001-000#", "#0001-001#", "#2020-366#", "#2021-366#", "#9999-W53-7#", "#0001-W01-1#", "#9999-W52-7T23:59#",
+                 "x = #9999-366#; 1", "#99991231#", "#00010101T000000#", "#9999-12-31T24:00#", "#2020-02-30T10:00#", "#+2020-01-01#", "#-0001-01-01#", "#10000-01-01#",
+                 "#2020-01-01T10:00:00.5#", "#2020-01-01T10:00:00,25#", "#2020-01-01T10:00Z#", "#2020-001#", "#2020-W01#",
                  "range(1e16, 1e16+4, 0.5)", "range(10^16, 10^16+4, 0.5)", "range(1.0e16, 1.0e16+2, 0.25)",
                  "range(2^53, 2^53+8, 0.5)", "range(1e300, 1e300*2, 1)", "range(0.1, 0.2, 1e-18)", "size(range(2251799813685248.5, 2251799813685268.5, 0.7))", "ceil(#2020-01-31#)", "#2020-01-01# + 1 ms", "log(8,-2)", "ln(1/10^400)",
                  "sin(1/1.5e-200/1.5e-200)", "x = 1/1.5e-200/1.5e-200; int(x - x)", "x = pi*1e308; x - x", "x = 2.5*1e308; x*0",
